@@ -16,27 +16,51 @@ def run_scenarios(ctx):
     for i in range(n):
         w = hist.World(ctx, i, random.Random(rng.randrange(1 << 30)), max_groups=rng.choice([1, 1, 2]), max_per_group=rng.choice([1, 2, 3]))
         forced = i == 1       # one storage where every later run rotates, removes the old group and has a reported (non-fatal) error
+        if i == 0:
+            w.max_per_group = max(2, w.max_per_group)       # (the second run appends to the first one's group: everything is known)
         if forced or i == 2:        # (storage 2: every later run rotates, would remove the old group, and has a failing flush)
             w.max_groups, w.max_per_group = 1, 1
         try:
-            for k in range(rng.randint(1, 12 if i % 3 else 60)):
-                open(os.path.join(w.items[0], 'f%d' % k), 'wb').write(os.urandom(rng.choice([10, 5000, 200000])))
-            nruns = 4 if i == 2 else 3 if forced else rng.randint(1, 4)
+            if i == 3:
+                w.max_groups, w.max_per_group = 2, 3
+            bigman = i == 3         # one storage whose manifest is long enough to be written out while the run is still archiving
+            for k in range(4500 if bigman else rng.randint(1, 12 if i % 3 else 60)):
+                open(os.path.join(w.items[0], 'f%d' % k), 'wb').write(os.urandom(10 if bigman else rng.choice([10, 5000, 200000])))
+            nruns = 4 if i == 2 else 3 if forced else 2 if bigman else rng.randint(2, 4) if i == 0 else rng.randint(1, 4)
+            if i == 5:
+                nruns = 3
+                w.max_groups, w.max_per_group = 2, 3
+            damaged = i == 4        # one storage where the last run finds an unreadable manifest in the group it appends to, and an old group to remove
+            if damaged:
+                nruns = 3
+                w.max_groups, w.max_per_group = 2, 1
             for r in range(nruns):
-                if rng.random() < 0.3 and r > 0:
+                if damaged and r == 2:
+                    w.max_groups, w.max_per_group = 1, 3
+                    gl = sorted(os.listdir(w.root))[-1]
+                    bl = sorted(b_ for b_ in os.listdir(os.path.join(w.root, gl)) if not b_.startswith('.'))[-1]
+                    with open(os.path.join(w.root, gl, bl, 'metadata.zst'), 'wb') as f:
+                        f.write(b'not a zstd stream')
+                if rng.random() < 0.3 and r > 0 and not damaged:
                     # an abandoned temporary in the newest group
                     g = sorted(os.listdir(w.root))[-1]
                     d = os.path.join(w.root, g, '.2001.01.01-00:00:0%d' % r)
                     os.makedirs(d, exist_ok=True)
                     open(os.path.join(d, 'data.tar.zst'), 'w').close()
-                for _ in range(rng.randint(0, 3)):
+                # (storage 0: at least two runs, the second over an unchanged tree - nothing new to store, the archive holds headers only)
+                for _ in range(0 if (i == 0 and r == 1) else rng.randint(0, 3)):
                     w.edit()
                 t = os.path.join(w.base, 'trace-%d.txt' % r)
                 adv = hist.DAY if forced or (i == 2 and r == 1) else 5 if i == 2 else rng.choice([5, hist.DAY])
+                if damaged:
+                    adv = hist.DAY if r < 2 else 5
+                if i == 5:
+                    adv = 5
                 env = {'TRACE': t, 'WATCH': w.root}
                 fault = None
                 flush_fault = i == 2      # one storage where every run has a failing flush, the directory flushes with EINVAL first
-                if (rng.random() < 0.35 or flush_fault) and not forced:
+                clean01 = i == 0 and r <= 1          # (storage 0: the first two runs are undisturbed)
+                if (rng.random() < 0.35 or flush_fault) and not forced and not damaged and not clean01 and i != 5:
                     # a flush that fails: the run must not go on to rename / report success / delete
                     tmp = os.path.join(w.root, sorted(os.listdir(w.root))[-1] if os.listdir(w.root) else store.group_name(w.now + adv), '.' + store.backup_name(w.now + adv))
                     grp_new = os.path.join(w.root, store.group_name(w.now + adv))
@@ -49,7 +73,27 @@ def run_scenarios(ctx):
                         fault = None
                     if fault:
                         env['FAULT'] = fault
-                soft = (forced and r == 1) or (not forced and rng.random() < 0.2)      # (the forced storage's last run is clean: rotation + removal)
+                if i == 5:
+                    # one storage with, run by run: a failing flush of the data archive, a failing flush of the manifest, and a
+                    # flush of the manifest that takes its time (whoever performs it: the name must wait for it)
+                    env.pop('FAULT', None)
+                    tmp = os.path.join(w.root, sorted(os.listdir(w.root))[-1] if os.listdir(w.root) else store.group_name(w.now + adv), '.' + store.backup_name(w.now + adv))
+                    fault = ['fsync@%s/data.tar.zst=EIO' % tmp, 'fsync@%s/metadata.zst=ENOSPC' % tmp, None][r] if r < 3 else None
+                    if fault:
+                        env['FAULT'] = fault
+                    elif r == 2:
+                        env['ACTION'] = 'fsync@%s/metadata.zst@1=sleep:400' % tmp
+                if bigman:
+                    # a write to the manifest fails once in the middle of the run (later writes would succeed): not all bytes
+                    # of the manifest can have reached the file, so the backup must not get its final name
+                    for _ in range(40):
+                        w.edit()
+                    tmp = os.path.join(w.root, sorted(os.listdir(w.root))[-1] if os.listdir(w.root) else store.group_name(w.now + adv), '.' + store.backup_name(w.now + adv))
+                    fault = 'write@%s/metadata.zst=%s@1' % (tmp, rng.choice(['ENOSPC', 'EIO', 'EFBIG'])) if r == 1 else None
+                    env.pop('FAULT', None)
+                    if fault:
+                        env['FAULT'] = fault
+                soft = (forced and r == 1) or (not forced and not damaged and not clean01 and i != 5 and rng.random() < 0.2)      # (the forced storage's last run is clean: rotation + removal)
                 if soft:
                     # a configured item that does not exist: reported, exit status 1, and the backup is still made and published
                     w.items.append(os.path.join(w.base, 'no-such-item')); w.filters.append(None)
@@ -58,8 +102,8 @@ def run_scenarios(ctx):
                     w.items.pop(); w.filters.pop()
                 recs = tr.parse(t, w.root)
                 ops, failed = tr.canonical(recs, w.root)
-                out.append({'scenario': i, 'run': r, 'rc': res.rc, 'ops': ops, 'failed': failed, 'errors': res.errors()[:3], 'fault': fault, 'soft_error': soft,
-                            'fault_hit': any(f[0] in ('fsync', 'fsyncdir') for f in failed)})
+                out.append({'scenario': i, 'run': r, 'damaged_manifest': damaged and r == 2, 'rc': res.rc, 'ops': ops, 'failed': failed, 'errors': res.errors()[:3], 'fault': fault, 'soft_error': soft,
+                            'fault_hit': any(f[0] in ('fsync', 'fsyncdir', 'write') for f in failed)})
         finally:
             w.cleanup()
     return out
@@ -99,11 +143,16 @@ def check(ctx):
             rejected += 1
             ctx.violation('property', 'the order monitor rejects the storage trace of a real run: something is renamed, removed or reported before it is durable',
                           {'case': {'ops': r['ops'], 'rc': r['rc']}, 'verdict': v})
+        wfail = [f for f in r['failed'] if f[0] == 'write']
+        if wfail and published:
+            ctx.violation('property', 'a write to %s failed (%s) during the run - its bytes cannot all be in the file - and the backup still got its final name (exit status %s)'
+                          % ('/'.join(wfail[0][1]) if isinstance(wfail[0][1], list) else wfail[0][1], wfail[0][2], r['rc']),
+                          {'case': {'ops': r['ops'][-30:], 'rc': r['rc'], 'fault': r['fault'], 'failed': r['failed']}})
         if not published and r['rc'] == 0:
             ctx.violation('property', 'exit status 0 without a rename', {'case': r})
         if r.get('fault_hit') and not v['orderOk']:
             rejected += 1
-            ctx.violation('property', 'after a failed flush (%s) the run still renamed, reported success or deleted an older group' % r['fault'],
+            ctx.violation('property', 'after a failed flush or write (%s) the run still renamed, reported success or deleted an older group' % r['fault'],
                           {'case': {'ops': r['ops'], 'rc': r['rc'], 'fault': r['fault'], 'failed': r['failed']}, 'verdict': v})
     nrot = sum(1 for s in scen if s and s['old_groups'])
     nab = sum(1 for s in scen if s and s['abandoned'])
@@ -114,7 +163,7 @@ def check(ctx):
                 'non-trivial = a run that appends to a group, removes abandoned temporaries or removes old groups; distinct by derived scenario',
         'samples': [scen[0]] if scen else [],
         'correspondence': st, 'traces_validated_against_impl': len(good), 'runs_with_old_group_removal': nrot, 'runs_with_abandoned_temporaries': nab,
-        'monitor_rejections': rejected, 'runs_with_a_soft_error': sum(1 for r in runs if r.get('soft_error')), 'disagreements_checked': st['cases'], 'runs_with_a_failed_flush': sum(1 for r in runs if r.get('fault_hit')),
+        'monitor_rejections': rejected, 'runs_with_a_soft_error': sum(1 for r in runs if r.get('soft_error')), 'disagreements_checked': st['cases'], 'runs_with_a_failed_flush': sum(1 for r in runs if r.get('fault_hit')), 'runs_with_a_failed_write': sum(1 for r in runs if any(f[0] == 'write' for f in r['failed'])),
     })
     ctx.assumptions += ['file data persists only by fsync of the file, directory entries only by fsync of the directory (the property\'s model); creation of a new group directory in the root is assumed persisted',
                         'no real power loss is staged: the replay of a rejected trace is the trace plus the model\'s recovered state',
